@@ -448,8 +448,19 @@ def fix_reimported_names(source: str) -> str:
 
     transaction = 0
 
-    # The new imports go to the top of the module, so only imports of the module level are
-    # replaced: elsewhere they bind the name in another scope, or only sometimes.
+    # The new imports take the place of the block of imports that they come from: between that
+    # place and the top of the module the name may be bound to something else.
+    import_block_linenos = {}
+    block_lineno = None
+    for node in root.body:
+        if isinstance(node, (ast.Import, ast.ImportFrom)):
+            block_lineno = node.lineno if block_lineno is None else block_lineno
+            import_block_linenos[node] = block_lineno
+        else:
+            block_lineno = None
+
+    # Only imports of the module level are replaced: elsewhere they bind the name in another
+    # scope, or only sometimes.
     for node in core.filter_nodes(root.body, ast.ImportFrom):
         if node.module in constants.PYTHON_311_STDLIB:
             continue
@@ -520,7 +531,7 @@ def fix_reimported_names(source: str) -> str:
                     else:
                         source_module = module_import_node.module
 
-                    module_from_imports[source_module].add(new_alias)
+                    module_from_imports[(import_block_linenos[node], source_module)].add(new_alias)
 
                 elif isinstance(module_import_node, ast.Import):
                     # Remove this alias from node.names
@@ -535,7 +546,7 @@ def fix_reimported_names(source: str) -> str:
                     else:
                         new_alias = ast.alias(name=original_name, asname=referenced_name)
 
-                    new_node = ast.Import(names=[new_alias], lineno=import_insert_lineno)
+                    new_node = ast.Import(names=[new_alias], lineno=import_block_linenos[node])
                     yield None, new_node, transaction
                 else:
                     node_names.append(alias)
@@ -549,10 +560,10 @@ def fix_reimported_names(source: str) -> str:
             else:
                 yield node, None, transaction
 
-    for module, aliases in module_from_imports.items():
+    for (lineno, module), aliases in module_from_imports.items():
         yield None, ast.ImportFrom(
             module=module,
             names=sorted(aliases, key=lambda alias: alias.name),
             level=0,
-            lineno=import_insert_lineno,
+            lineno=lineno,
         ), transaction
